@@ -79,3 +79,11 @@ Theorem two_transcripts_give_representation :
     map (fun t => (s_b t, s_bi t, s_es t)) terms = ts /\ map (fun t => (s_b t, s_bi t, s_er t)) terms = ts' /\
     sprod n (fun t => s_es t - s_er t) terms = powm n lhs (c - c').
 Proof. exact qr_two_transcripts_lem. Qed.
+
+(* Soundness needs the commitments of a range proof to be invertible modulo N (with C_i = 0 mod N both relations the
+   commitment occurs in hold for any responses and any bound; the harness' cheating prover found exactly that forgery in
+   the original code): the repaired structure check guarantees it for every accepted proof. *)
+Theorem range_commitments_are_units :
+  forall pk s p, verify_proof_structure pk s p = true ->
+  forall i, In i (zrange (rs_n s)) -> exists c, nth_ptr (rp_Cs p) i = Some c /\ Z.gcd c (pk_N pk) = 1.
+Proof. exact range_commitments_are_units_lem. Qed.
